@@ -57,6 +57,24 @@ def evaluate (arms : List α) (decisions : List α) (rewards : List Rat) (predic
     Dict α (List Rat) :=
   arms.map fun a => (a, credited decisions rewards predictions train a)
 
+/-- the rewards `default_evaluator` credits to arm `a` when the substitute for a row whose prediction
+    differs from the logged decision depends on the row — the neighbourhood branch (`nn=True`): the
+    statistic of the predicted arm in *that row's* neighbourhood when there is one, else its training statistic -/
+def creditedBy (decisions : List α) (rewards : List Rat) (predictions : List α) (subs : List (α → Rat)) (a : α) : List Rat :=
+  (List.zip predictions (List.zip decisions (List.zip rewards subs))).filterMap fun p =>
+    if p.1 = a then some (if p.1 = p.2.1 then p.2.2.1 else p.2.2.2 a) else none
+
+/-- the neighbourhood substitute of one row: `nbr = none` is an empty record for the row, `f a = none`
+    an empty or missing record for the arm (both falsy in the code) -/
+def nnSub (nbr : Option (α → Option Rat)) (train : α → Rat) : α → Rat :=
+  fun a => match nbr with
+    | some f => (f a).getD (train a)
+    | none => train a
+
+def evaluateNN (arms : List α) (decisions : List α) (rewards : List Rat) (predictions : List α) (train : α → Rat)
+    (nbrs : List (Option (α → Option Rat))) : Dict α (List Rat) :=
+  arms.map fun a => (a, creditedBy decisions rewards predictions (nbrs.map fun n => nnSub n train) a)
+
 /-! ### shared distances -/
 
 /-- `calculate_distances`: one distance vector per query row, in row order -/
